@@ -408,7 +408,9 @@ pub trait Encoding: private::SealedContainer {
             let net =
                 Self::hrp_network(hrp).ok_or_else(|| ParseError::UnknownPrefix(hrp.to_string()))?;
 
-            let data = parsed.byte_iter().collect::<Vec<_>>();
+            let data = crate::encoding::checked_payload(&parsed).ok_or_else(|| {
+                ParseError::InvalidEncoding("Invalid Bech32m padding".to_string())
+            })?;
 
             Self::parse_internal(hrp, data).map(|value| (net, value))
         } else {
